@@ -168,6 +168,11 @@ def _compare(ctx, op, cell, backend, got_kind, ref, a, b, s_in, tol, q):
         if not R.representable(sysr, ref):
             ctx.exclude("result_not_representable")
             return False
+        if not backend.endswith("mp") and len(sysr) >= 2 and sysr[1] in ("theta", "eta") and \
+                R.rho2(ref) < (mpf("1e-6") * R.scale_of(a, b, ref)) ** 2:
+            # float64: a result that cancelled onto the z axis is ill-conditioned in theta / eta storage
+            ctx.exclude("ill_conditioned_result")
+            return False
         scale = R.scale_of(a, b, ref)
         if len(cart) != len(ref):
             ctx.fail("dimension", f"{op.name} {variant}: result has {len(cart)} components, definition gives {len(ref)}",
@@ -278,7 +283,7 @@ def check_sub(cell, case, ctx):
 DIMENSIONLESS = ("costheta", "cottheta", "eta", "theta", "beta", "gamma", "rapidity", "deltaeta", "deltaR", "deltaR2", "deltaangle",
                  "deltaRapidityPhi", "deltaRapidityPhi2", "pseudorapidity")
 U = mpf(2) ** -53
-ACC_C = 256
+ACC_C = 1024
 
 
 def _check_accuracy(cell, case, ctx):
@@ -320,6 +325,16 @@ def _check_accuracy(cell, case, ctx):
     if case.get("rel") not in (None, "unary", "independent"):
         ctx.exclude("correlated_pair")
         return
+    if db:
+        # two independent draws can still coincide in direction (both the generator's simplest value): nearly (anti)parallel
+        # pairs are outside the well-conditioned domain of the acos / difference formulas
+        k_ = min(da, db, 3)
+        na, nb = R.norm(a[:k_]) if k_ < 4 else None, R.norm(b[:k_]) if k_ < 4 else None
+        if na and nb:
+            c_ = sum(x * y for x, y in zip(a[:k_], b[:k_])) / (na * nb)
+            if abs(c_) > 1 - mpf("1e-6"):
+                ctx.exclude("correlated_pair")
+                return
     if op.name == "to_beta3" and a[3] < 0:
         ctx.exclude("negative_t")
         return
@@ -356,23 +371,25 @@ def _check_accuracy(cell, case, ctx):
         if not all(obs.finite(x) for x in ref):
             ctx.exclude("nonfinite_reference")
             return
-        delta = mpf(2) ** -30
-        sens = [mpf(0)] * len(ref)
-        groups = [(st_a, 0), (st_b, 1), (xs0, 2)]
-        for vec_, which in groups:
-            for i in range(len(vec_)):
-                base = vec_[i]
-                h = delta * (abs(base) if base != 0 else 1)
-                pert = list(vec_)
-                pert[i] = base + h
-                args = [st_a, st_b, xs0]
-                args[which] = pert
-                out = F(*args)
-                for k in range(len(ref)):
-                    d = out[k] - ref[k]
-                    if names[k] == "phi" or op.result == "angle":
-                        d = R.wrap_pi(d)
-                    sens[k] += abs(d) / delta
+        def sensitivities(delta):
+            sens_ = [mpf(0)] * len(ref)
+            for vec_, which in ((st_a, 0), (st_b, 1), (xs0, 2)):
+                for i in range(len(vec_)):
+                    base = vec_[i]
+                    h = delta * (abs(base) if base != 0 else 1)
+                    pert = list(vec_)
+                    pert[i] = base + h
+                    args = [st_a, st_b, xs0]
+                    args[which] = pert
+                    out = F(*args)
+                    for k in range(len(ref)):
+                        d = out[k] - ref[k]
+                        if names[k] == "phi" or op.result == "angle":
+                            d = R.wrap_pi(d)
+                        sens_[k] += abs(d) / delta
+            return sens_
+
+        sens = sensitivities(mpf(2) ** -30)
     except Skip_ as sk:
         ctx.exclude(sk.args[0])
         return
@@ -394,6 +411,24 @@ def _check_accuracy(cell, case, ctx):
         if names[k] == "phi" or op.result == "angle":
             d = R.wrap_pi(d)
         if mpmath.isnan(got[k]) or abs(d) > tol:
+            # an error bound from first derivatives needs a reference that is smooth at this input: at a kink or a branch
+            # point (acos at +-1 for exactly parallel operands, phi of a difference that cancels to zero, |x| at 0 ...) the
+            # finite differences depend on the step; such points have no conditioning-based budget and are not judged here
+            try:
+                s_lo, s_hi = sensitivities(mpf(2) ** -44)[k], sensitivities(mpf(2) ** -16)[k]
+            except Skip_ as sk:
+                ctx.exclude(sk.args[0])
+                return
+            except (ZeroDivisionError, ValueError):
+                ctx.exclude("mp_singular")
+                return
+            cand = [x for x in (s_lo, sens[k], s_hi)]
+            if max(cand) > 4 * min(cand) + mpf("1e-30") * max(cand):
+                if not mpmath.isnan(got[k]):
+                    ctx.exclude("non_smooth_reference")
+                    return
+            if not mpmath.isnan(got[k]) and abs(d) <= ACC_C * U * (max(cand) + floor) + mpf("1e-300"):
+                continue
             ctx.fail("accuracy" + opcheck.qualifiers(a, b), f"{op.name} {variant} [float64]: {names[k]} = {opcheck.fmt(got[k])}, exact value for the stored inputs "
                      f"{opcheck.fmt(ref[k])}; error {mpmath.nstr(abs(d), 3)} is {mpmath.nstr(abs(d) / (U * (sens[k] + floor)), 3)} times the "
                      f"rounding-error budget u*(conditioning+|value|) (allowed {ACC_C}); stored a={opcheck.fmt(st_a)} b={opcheck.fmt(st_b) if db else None} "
